@@ -9,10 +9,11 @@ for id in $ids; do
      if git -C /repo apply --3way --check "$(pwd)/$p" 2>/dev/null; then :; else echo "$id: patch does not apply to the current tree (needs rebase)"; continue; fi
   fi
   git -C /repo apply "$(pwd)/$p" 2>/dev/null || { echo "$id: apply failed"; continue; }
-  out=$(bin/govc check -prop "$id" -tier quick -out "$(pwd)/out/seeded" 2>&1)
+  prop=$(echo "$id" | cut -c1-3)   # seeded/C06b is a second change for property C06
+  out=$(bin/govc check -prop "$prop" -tier quick -out "$(pwd)/out/seeded" 2>&1)
   code=$?
   git -C /repo apply -R "$(pwd)/$p"
-  n=$(echo "$out" | grep -c "^VIOLATION property=$id")
+  n=$(echo "$out" | grep -c "^VIOLATION property=$prop")
   if [ $code -eq 1 ] && [ $n -gt 0 ]; then
     echo "$id: CAUGHT ($n): $(echo "$out" | grep '^VIOLATION' | head -3 | sed 's/.*replay\/[^/]*\///; s/ no-failing-input-found/ (nfif)/' | tr '\n' ' ')"
   else
